@@ -436,6 +436,8 @@ def run_shard(spec, ctx):
                                                 canon(data)]))
         stats.extra['class_evaluations'] = stats.extra.get(
             'class_evaluations', 0) + len(res)
+        if nt and 'sample' not in holder:
+            holder['sample'] = data
         return Outcome(fails, sorted(labels), False)
 
     search(data_strategy(len(spec['classes'])), execute,
@@ -447,9 +449,11 @@ def run_shard(spec, ctx):
                          classes=[k for k in spec['classes']
                                   if k.endswith('.' + str(
                                       f['klass'].get('cls')))])
-    if stats.samples:
-        stats.samples = [dict(bundle=spec['classes'][:3], kernel=kernel_name,
-                              dim=dim, data=stats.samples[0])]
+    if 'sample' in holder:
+        stats.samples = [dict(
+            bundle=[m.key for m in holder.get('members', [])][:4],
+            kernel=kernel_name, dim=dim,
+            data=json.loads(canon(holder['sample'])))]
     return stats.result()
 
 
